@@ -28,7 +28,7 @@ EXPLANATION = (
 )
 
 MANIFEST = {
-    "technique": "static analysis: partial evaluation of the merge callback with helpers inlined and 4-entry loops unrolled; exhaustive simulation of the extracted event trace over 32 abstract cases (buffer freshness typestate); canonical-term comparison of the merge pipeline; per-mode evaluation of the mask operations (shared premise with C15); memo rule for cached readings of the file system in the tile I/O layer",
+    "technique": "static analysis: partial evaluation of the merge callback with helpers inlined and 4-entry loops unrolled; exhaustive simulation of the extracted event trace over 32 abstract cases (buffer freshness typestate); canonical-term comparison of the merge pipeline; per-mode evaluation of the mask operations (shared premise with C15); memo rule for cached readings of the file system in the tile I/O layer; value flow of the cascade subcommand's options into cascade_images / PyramidIO; position pairing after filtering (zip of a table with a filtered sequence); per-mode buffer layout classified by the library's own dtype table (shared with C15)",
     "text": "Decides placement, buffer freshness, pairing, write-back position and the averaging merger's shape algebra on all paths; numerical means and codec behaviour are not decided.",
     "note": "Trusted: numpy reshape/nanmean/astype semantics, Image.clear() (decided by C15). Not decided: numeric values of means, integer rounding of astype, PNG/JPEG codecs.",
 }
